@@ -90,8 +90,10 @@ func (c *HeartbeatManager) StartHeartbeat() error {
 
 	// stop an already running heartbeat
 	c.StopHeartbeat()
+	verifPoint("StartHeartbeat.afterStop")
 
 	c.stopHeartbeatC = make(chan struct{})
+	verifPoint("StartHeartbeat.afterMake")
 
 	go c.updateHeartbeatData(c.stopHeartbeatC, timeout)
 
@@ -102,6 +104,7 @@ func (c *HeartbeatManager) StartHeartbeat() error {
 // Note: No active subscribers will get any further notifications!
 func (c *HeartbeatManager) StopHeartbeat() {
 	if c.IsHeartbeatRunning() {
+		verifPoint("StopHeartbeat.beforeClose")
 		close(c.stopHeartbeatC)
 	}
 }
@@ -125,6 +128,7 @@ func (c *HeartbeatManager) updateHeartbeatData(stopC chan struct{}, d time.Durat
 	if d > 2*time.Second {
 		d -= 2 * time.Second
 	}
+	verifPoint("Heartbeat.period", stopC, d)
 	ticker := time.NewTicker(d)
 	for {
 		select {
@@ -136,6 +140,7 @@ func (c *HeartbeatManager) updateHeartbeatData(stopC chan struct{}, d time.Durat
 			// updating the data will automatically notify all subscribed remote features
 			c.localFeature.SetData(model.FunctionTypeDeviceDiagnosisHeartbeatData, heartbeatData)
 			c.mux.Unlock()
+			verifPoint("Heartbeat.tick", stopC, *heartbeatData.HeartbeatCounter)
 
 		case <-stopC:
 			return
